@@ -691,6 +691,16 @@ func handleInputStream(s *Session, handler Handler) (err error) {
 
 	iqOk := isIQ(start.Name)
 	_, _, id, typ := getIDTyp(start.Attr)
+	// The sender is named by the unqualified from attribute only.
+	// Like the id and the type it is read before the handler runs: the handler
+	// is given a pointer to the start element and may reuse it.
+	var fromAttr string
+	for _, a := range start.Attr {
+		if a.Name.Space == "" && a.Name.Local == "from" {
+			fromAttr = a.Value
+			break
+		}
+	}
 
 	if typ == string(stanza.ResultIQ) || typ == "error" {
 		s.sentStanzaMutex.Lock()
@@ -751,14 +761,6 @@ func handleInputStream(s *Session, handler Handler) (err error) {
 	iqNeedsResp := typ == string(stanza.GetIQ) || typ == string(stanza.SetIQ)
 	// If the user did not write a response to an IQ, send a default one.
 	if iqOk && iqNeedsResp && !rw.wroteResp {
-		// The sender is named by the unqualified from attribute only.
-		var fromAttr string
-		for _, a := range start.Attr {
-			if a.Name.Space == "" && a.Name.Local == "from" {
-				fromAttr = a.Value
-				break
-			}
-		}
 		var to jid.JID
 		if fromAttr != "" {
 			to, err = jid.Parse(fromAttr)
